@@ -384,6 +384,9 @@ func init() {
 			ue := zeroed.RunUseEmpty(def)
 			ue.Floor("reuses_of_the_receivers_backing_slice", 7)
 			res.Merge(ue)
+			rc := zeroed.RunResetCaps(def)
+			rc.Floor("capacity_fields_of_resettable_types", 3)
+			res.Merge(rc)
 			sw := swapx.Run(def, core.Pkgs("./mat"))
 			sw.Floor("swaps_guarded_by_a_comparison_of_two_variables", 2)
 			res.Merge(sw)
@@ -980,6 +983,8 @@ func dump(argv []string) {
 		res = flagx.RunRetOffset(def, core.Pkgs(argv[1:]...))
 	case "wholecopy":
 		res = stride.RunWholeCopy(def, core.Pkgs(argv[1:]...))
+	case "resetcaps":
+		res = zeroed.RunResetCaps(def)
 	case "workquery":
 		res = flagx.RunWorkQuery(def, core.Pkgs(argv[1:]...))
 	case "betascale":
